@@ -93,6 +93,9 @@ def check_world(sp, w, handle, procs_exp, ents_exp, file_route):
     sp.check(w.dispatch_enabled is False or not file_route, 'returned-disabled',
              'the loaded world is returned with dispatching enabled')
     procs = list(w.processors)
+    for p in procs:
+        sp.check(p.world is w, 'processor-world', 'processor %s of the loaded world has .world %r' % (
+            type(p).__name__, p.world))
     lead = [desper.OnUpdateProcessor, desper.CoroutineProcessor] if file_route else []
     sp.check([type(p) for p in procs] == lead + [c for c, _, _ in procs_exp], 'processors',
              'processors %r, expected %r' % ([type(p).__name__ for p in procs],
@@ -252,6 +255,16 @@ def h_shape(sp, max_procs=2, max_ents=2, max_comps=2, routes=2, small_ids=False,
             sp.fail('load-raises', 'loading raised %r at %s' % (ex, traceback.extract_tb(ex.__traceback__)[-1][:3]))
         sp.check(w.dispatch_enabled is False, 'returned-disabled', 'the loaded world is returned with dispatching enabled')
         all_comps = check_world(sp, w, handle, procs_exp, ents_exp, file_route)
+        if file_route:
+            # a second world loaded from the same description is a separate world with its own processors
+            handle2 = WorldFromFileHandle(fn)
+            root['w2'] = handle2
+            w2 = handle2()
+            sp.check(w2 is not w and not any(p is q for p in w.processors for q in w2.processors), 'separate-worlds',
+                     'two worlds loaded from one file share processor objects')
+            check_world(sp, w2, handle2, procs_exp, ents_exp, file_route)
+            check_world(sp, w, handle, procs_exp, ents_exp, file_route)
+            sp.cover('second-world')
         check_events(sp, w, handle, all_comps)
         if procs:
             sp.cover('processors')
@@ -270,7 +283,7 @@ def _short(d):
     return s.replace(REG, '')
 
 
-def h_args(sp, n_pos=2, n_kw=1, kinds=15):
+def h_args(sp, n_pos=2, n_kw=1, kinds=15, move=True):
     attach = sp.choose(3, 'attach')
     root, h1, h2 = make_tree(attach)
     K = arg_kinds(h1, h2)[:kinds]
@@ -318,6 +331,28 @@ def h_args(sp, n_pos=2, n_kw=1, kinds=15):
         else:
             check_world(sp, w, handle, [], [('e', [(reg.CompB, a_exp, k_exp)])], True)
         sp.check(h1.loads <= 1 and h2.loads <= 1, 'resource-loaded-once', 'a referenced resource was loaded more than once')
+        if move:
+            # second use: the world handle moves into another resource tree, is cleared and loaded again; references
+            # must now resolve against the tree that encloses it NOW
+            root.clear()
+            root_b, h1b, h2b = make_tree(attach)
+            h1b.value, h2b.value = ('resource', 1, 'other tree'), ('resource', 2, 'other tree')
+            attach_handle(root_b, handle, attach)
+            handle.clear()
+            Kb = {name: exp for name, js, exp in arg_kinds(h1b, h2b)}
+            fix = {id(R1): h1b.value, id(R2): h2b.value, id(h1): h1b, id(h2): h2b}
+            a_exp_b = [fix.get(id(x), x) for x in a_exp]
+            k_exp_b = {n: fix.get(id(x), x) for n, x in k_exp.items()}
+            try:
+                wb = handle()
+            except Exception as ex:     # noqa
+                sp.fail('load-raises', 'loading again after moving the handle raised %r' % (ex,), attach=attach)
+            sp.check(wb is not w, 'reload-fresh', 'clear() + access did not load a fresh world')
+            if target_proc:
+                check_world(sp, wb, handle, [(reg.ProcA, a_exp_b, k_exp_b)], [], True)
+            else:
+                check_world(sp, wb, handle, [], [('e', [(reg.CompB, a_exp_b, k_exp_b)])], True)
+            sp.cover('moved-and-reloaded')
     finally:
         shutil.rmtree(tmp, ignore_errors=True)
     sp.done()
@@ -389,10 +424,11 @@ def h_strings_replay(sp, fname='', text=''):
 
 HARNESSES = {
     'shape': dict(fn=h_shape, nontrivial=['processors', 'explicit-id', 'auto-id', 'callbacks', 'falsy-id'],
-                  required=['processors', 'explicit-id', 'auto-id', 'callbacks', 'falsy-id', 'generator-id']),
+                  required=['processors', 'explicit-id', 'auto-id', 'callbacks', 'falsy-id', 'generator-id', 'second-world']),
     'args': dict(fn=h_args, nontrivial=['kind-obj', 'kind-res', 'kind-handle', 'kind-mid-marker', 'kind-plain', 'kind-list'],
                  required=['kind-int', 'kind-obj', 'kind-obj-nested', 'kind-res', 'kind-res1', 'kind-handle', 'kind-mid-marker',
-                           'kind-plain', 'kind-list', 'kind-dict', 'kind-none', 'res-through-composite-key']),
+                           'kind-plain', 'kind-list', 'kind-dict', 'kind-none', 'res-through-composite-key',
+                           'moved-and-reloaded']),
     'strings': dict(kind='custom', fn=crosshair_conditions),
     'strings-replay': dict(fn=h_strings_replay),
 }
